@@ -3,6 +3,7 @@
   Not part of the model: glue that parses a protocol line and prints a canonical result.
 -/
 import Rws.Prim
+import Rws.Http
 namespace RwsDriver
 open Rws
 
@@ -41,5 +42,71 @@ def withText (f : String) (k : List Char → String) : String :=
     match textField f with
     | some cs => k cs
     | none => "badutf8"
+
+/-! canonical one-line renderings of the shared data types (the harness prints the same):
+    header  = `<name>:<value>`       (hex fields, `-` = empty), list joined by `,`, `-` = empty list
+    request = `<method> <uri> <version> <headers> <body>`
+    part    = `<headers>;<body>`, list joined by `|`
+    content-range = `<unit>;<start>;<end>;<size>;<content-type>;<body>`, list joined by `|`
+    response = `<version> <status> <reason> <headers> <parts>` -/
+def showHeader (h : Header) : String := toHexField h.name ++ ":" ++ toHexField h.value
+def showHeaders (hs : List Header) : String :=
+  if hs.isEmpty then "-" else String.intercalate "," (hs.map showHeader)
+def showRequest (r : Request) : String :=
+  toHexField r.method ++ " " ++ toHexField r.uri ++ " " ++ toHexField r.version ++ " " ++
+  showHeaders r.headers ++ " " ++ toHexField r.body
+def showPart (p : Part) : String := showHeaders p.headers ++ ";" ++ toHexField p.body
+def showParts (ps : List Part) : String :=
+  if ps.isEmpty then "-" else String.intercalate "|" (ps.map showPart)
+def showContentRange (c : ContentRange) : String :=
+  toHexField c.unit ++ ";" ++ toString c.range.start ++ ";" ++ toString c.range.stop ++ ";" ++
+  toHexField c.size ++ ";" ++ toHexField c.contentType ++ ";" ++ toHexField c.body
+def showContentRanges (cs : List ContentRange) : String :=
+  if cs.isEmpty then "-" else String.intercalate "|" (cs.map showContentRange)
+def showResponse (r : Response) : String :=
+  toHexField r.version ++ " " ++ toString r.status ++ " " ++ toHexField r.reason ++ " " ++
+  showHeaders r.headers ++ " " ++ showContentRanges r.parts
+
+def readHeader (s : String) : Option Header :=
+  match s.splitOn ":" with
+  | [n, v] => match ofHexField n, ofHexField v with
+    | some n, some v => some ⟨n, v⟩
+    | _, _ => none
+  | _ => none
+def readList {α : Type} (sep : String) (f : String → Option α) (s : String) : Option (List α) :=
+  if s = "-" then some [] else (s.splitOn sep).mapM f
+def readHeaders : String → Option (List Header) := readList "," readHeader
+def readRequest : List String → Option Request
+  | [m, u, v, hs, b] =>
+    match ofHexField m, ofHexField u, ofHexField v, readHeaders hs, ofHexField b with
+    | some m, some u, some v, some hs, some b => some ⟨m, u, v, hs, b⟩
+    | _, _, _, _, _ => none
+  | _ => none
+def readPart (s : String) : Option Part :=
+  match s.splitOn ";" with
+  | [hs, b] => match readHeaders hs, ofHexField b with
+    | some hs, some b => some ⟨hs, b⟩
+    | _, _ => none
+  | _ => none
+def readParts : String → Option (List Part) := readList "|" readPart
+def readContentRange (s : String) : Option ContentRange :=
+  match s.splitOn ";" with
+  | [u, st, en, sz, ct, b] =>
+    match ofHexField u, st.toNat?, en.toNat?, ofHexField sz, ofHexField ct, ofHexField b with
+    | some u, some st, some en, some sz, some ct, some b => some ⟨u, ⟨st, en⟩, sz, b, ct⟩
+    | _, _, _, _, _, _ => none
+  | _ => none
+def readContentRanges : String → Option (List ContentRange) := readList "|" readContentRange
+def readResponse : List String → Option Response
+  | [v, st, r, hs, ps] =>
+    match ofHexField v, st.toInt?, ofHexField r, readHeaders hs, readContentRanges ps with
+    | some v, some st, some r, some hs, some ps => some ⟨v, st, r, hs, ps⟩
+    | _, _, _, _, _ => none
+  | _ => none
+
+def showOutcome {α : Type} (f : α → String) : Outcome α → String
+  | .ok a    => "ok " ++ f a
+  | .err     => "err"
+  | .panic s => "panic " ++ s
 
 end RwsDriver
